@@ -157,7 +157,6 @@ func (it *Interp) Abort(reason string) { panic(&abort{reason}) }
 // LoadAgg returns the content of a cell as an aggregate value (a by-value argument).
 func (it *Interp) LoadAgg(c *Cell) Value { return Agg{it.snapshot(c)} }
 
-
 // eqFamily describes the equality tests [D = c] of one term D with constants that occur in a term.
 type eqFamily struct {
 	d     *IAtom
